@@ -71,9 +71,16 @@ def main():
     print(f"[{pid}] tier={args.tier} seed={seed}: {len(harnesses)} harnesses, {len(plan.zqueries)} solver queries", flush=True)
 
     zresults = []
+    zthread = None
     if plan.zqueries and not args.only:
-        zresults = plan.run_z(ctx, args.tier)
+        import threading
+        zbox = {}
+        zthread = threading.Thread(target=lambda: zbox.setdefault("r", plan.run_z(ctx, args.tier)))
+        zthread.start()
     results = runner.run_pool(harnesses, jobs=args.jobs, log_dir=log_dir) if harnesses else []
+    if zthread:
+        zthread.join()
+        zresults = zbox.get("r", [])
 
     known = load_known()
     violations = []      # (what, replay_path)
